@@ -398,3 +398,41 @@ Proof.
   cbn [ev0 ev1 ev2 eu0 eu1 eu2 length map fold_left Z.of_nat Pos.of_succ_nat Pos.succ vget]. rops.
   munf. repeat split; try (apply V3_ext; field); field.
 Qed.
+
+(* ---- tied eigenvalues: the least-squares plane is not unique; every unit eigenvector of the smallest eigenvalue
+   of the covariance gives one (this is the observable the correspondence checks for tie cases) ------------- *)
+Theorem min_eigenvector_is_least_squares ps n lam : (2 <= length ps)%nat ->
+  vnorm2 ROps n = 1 -> m3apply ROps (cov ROps ps) n = vscale ROps lam n ->
+  (forall m, lam * vdot ROps m m <= quad (cov ROps ps) m) ->
+  plane_ctor ROps (default_atol ROps) (centroid ROps ps) n = Ok (MkPlane (centroid ROps ps) n) /\
+  forall m, vnorm2 ROps m = 1 -> ssd ps (centroid ROps ps) n <= ssd ps (centroid ROps ps) m.
+Proof.
+  intros Hlen Hn He Hmin. split; [apply ctor_unit; [apply Rlt_le, default_atol_value|exact Hn]|].
+  intros m Hm.
+  assert (Hk : 0 < nlen ROps ps - 1).
+  { unfold nlen. rops. assert (2 <= IZR (Z.of_nat (length ps))) by (apply IZR_le; lia). lra. }
+  rewrite !ssd_is_quad, !cov_is_scatter by lra. apply Rmult_le_compat_l; [lra|].
+  assert (Hq : quad (cov ROps ps) n = lam).
+  { unfold quad. rewrite He, vdot_scale_r. unfold vnorm2 in Hn. rewrite Hn. ring. }
+  rewrite Hq. specialize (Hmin m). unfold vnorm2 in Hm. rewrite Hm in Hmin. lra.
+Qed.
+(* under the eigen-solver contract the fitted normal is such an eigenvector (so the hypothesis above is met) *)
+Lemma contract_gives_min_eigenvector c e : eig_contract c e ->
+  exists lam, (forall m, lam * vdot ROps m m <= quad c m) /\ quad c (fit_normal ROps e) = lam.
+Proof.
+  intros Hc. destruct (fit_normal_optimal c e Hc) as [Hn Hopt]. exists (quad c (fit_normal ROps e)). split; [|reflexivity].
+  intros m. destruct (Req_dec (vdot ROps m m) 0) as [Hz|Hnz].
+  - assert (m = V3 0 0 0) by (apply vnorm2_zero; exact Hz). subst m. unfold quad. dm3 c. munf. lra.
+  - assert (Hp : 0 < vdot ROps m m).
+    { pose proof (vnorm2_nonneg m) as H0. unfold vnorm2 in H0. lra. }
+    set (k := sqrt (vdot ROps m m)). assert (Hk : 0 < k) by (apply sqrt_lt_R0; exact Hp).
+    assert (Hkk : k * k = vdot ROps m m) by (apply sqrt_sqrt; lra).
+    set (u := vscale ROps (/ k) m).
+    assert (Hu : vdot ROps u u = 1).
+    { unfold u. rewrite vdot_scale_l, vdot_scale_r, <- Hkk. field. lra. }
+    specialize (Hopt u Hu).
+    assert (Hqu : quad c m = (k * k) * quad c u).
+    { unfold quad, u. dm3 c. destruct m. munf. field. lra. }
+    rewrite Hqu, <- Hkk. assert (H0 : 0 <= k * k) by nra.
+    pose proof (Rmult_le_compat_l (k * k) _ _ H0 Hopt) as H1. lra.
+Qed.
